@@ -42,9 +42,7 @@ func (c *Cache[K, V]) VerifStatus() VerifStatus {
 		st.WriteBufferSize = cc.writeBuffer.Size()
 		st.ReadBufferLen = cc.readBuffer.Len()
 	}
-	if cc.singleflight.isInitialized.Load() {
-		st.InFlightCalls = cc.singleflight.calls.Size()
-	}
+	st.InFlightCalls = c.verifInFlight() // optional hook (zz_verif_opt_inflight.go): -1 when unavailable
 	return st
 }
 
@@ -127,28 +125,7 @@ func (c *Cache[K, V]) VerifSnapshot() VerifSnapshot[K, V] {
 		return true
 	})
 	if cc.withEviction {
-		p := cc.evictionPolicy
-		for n := range p.window.All() {
-			s.Window = append(s.Window, n.Key())
-		}
-		for n := range p.probation.All() {
-			s.Probation = append(s.Probation, n.Key())
-		}
-		for n := range p.protected.All() {
-			s.Protected = append(s.Protected, n.Key())
-		}
-		s.Maximum, s.WeightedSize = p.maximum, p.weightedSize
-		s.WindowMax, s.WindowSize = p.windowMaximum, p.windowWeightedSize
-		s.ProtectedMax, s.ProtectedSize = p.mainProtectedMaximum, p.mainProtectedWeightedSize
-		if !p.sketch.isNotInitialized() {
-			h := uint64(1469598103934665603)
-			for _, w := range p.sketch.table {
-				h = (h ^ w) * 1099511628211
-			}
-			s.Sketch = fmt.Sprintf("len=%d size=%d sample=%d h=%x", len(p.sketch.table), p.sketch.size, p.sketch.sampleSize, h)
-		}
-		s.SketchSize, s.SketchSample, s.PrevHitRate = p.sketch.size, p.sketch.sampleSize, p.previousSampleHitRate
-		s.Adjust = fmt.Sprintf("step=%v adj=%d hits=%d misses=%d prev=%v", p.stepSize, p.adjustment, p.hitsInSample, p.missesInSample, p.previousSampleHitRate)
+		c.verifPolicyDetails(&s) // optional hook (zz_verif_opt_policy.go)
 	}
 	if cc.withExpiration {
 		cc.expirationPolicy.VerifWalk(func(level, slot int, n node.Node[K, V]) {
@@ -285,7 +262,7 @@ func (c *Cache[K, V]) VerifAudit() (out []VerifFinding) {
 			}
 		}
 	}
-	if st.InFlightCalls != 0 {
+	if st.InFlightCalls > 0 {
 		add("inflight-left", "singleflight", "%d in-flight load records remain at quiescence", st.InFlightCalls)
 	}
 	return out
